@@ -399,6 +399,14 @@ def finish_grown(c, bi, parts, blocks, snap_blocks, alignment, tables, nop,
                  viol, ctr):
     from gtirb_rewriting.intervalutils import (PaddingError,
                                                join_byte_intervals)
+    # the library aligns, per piece, the first block (by offset) that has a
+    # requirement; further aligned blocks of the same overlapping group are
+    # only aligned as a consequence
+    later_aligned = set()
+    for p in parts:
+        al = sorted((b for b in p.blocks if b in (alignment or {})),
+                    key=lambda b: (b.offset, -alignment[b]))
+        later_aligned |= {id(b) for b in al[1:]}
     order_before = [blocks.index(b) for p in parts
                     for b in sorted(p.blocks, key=lambda b: (b.offset,
                                                              blocks.index(b)))]
@@ -444,7 +452,9 @@ def finish_grown(c, bi, parts, blocks, snap_blocks, alignment, tables, nop,
         addr = base + b.offset
         if addr % a:
             viol.append({
-                "key": "join:alignment-lost:after-growth",
+                "key": "join:alignment-lost:after-growth" + (
+                    ":not-the-first-aligned-block-of-its-group"
+                    if id(b) in later_aligned else ""),
                 "msg": f"block {k} at {addr:#x} not {a}-aligned"})
     ctr["alignment_checks_after_growth"] = nalign
     shape = "o" if len({id(p) for p in parts}) < len(blocks) else ""
@@ -555,8 +565,12 @@ def run_align(case):
         if blk.address % a:
             earlier = [b for b in blk.byte_interval.blocks
                        if b in table and b.offset < blk.offset]
-            ctx = "later-aligned-block-of-interval" if earlier \
-                else "first-aligned-block-of-interval"
+            shared = [b for b in blk.byte_interval.blocks
+                      if b in table and b is not blk
+                      and b.offset == blk.offset]
+            ctx = "later-aligned-block-of-interval" if earlier else (
+                "aligned-block-sharing-its-offset-with-another" if shared
+                else "first-aligned-block-of-interval")
             viol.append({"key": f"align:no-longer-holds:{ctx}",
                          "msg": f"address {blk.address:#x} % {a}"})
         else:
